@@ -113,7 +113,7 @@ class QGen:
         else:
             pool = ["add", "add", "mulf", "flagged", "pair", "none_default", "unann", "cat", "cat", "ident", "withctx",
                     "sub", "getvar", "tag", "let", "let", "flag", "state_variable", "ns", "attr_up", "attr_low",
-                    "lit", "num", "firstcat", "optint"]
+                    "lit", "num", "firstcat", "optint", "optfb"]
             if self.allow_volatile:
                 pool += ["vol", "nocache"]
             if self.allow_mutators:
@@ -156,8 +156,13 @@ class QGen:
             a = opt([self.str_arg(D, P)])
             self._numeric_prefix = False
         elif c == "optint":
-            a = [self.int_arg(D, P)] if (r.random() < 0.7 or getattr(self, "avoid_none_default", False)) else []
+            a = [self.int_arg(D, P)] if r.random() < 0.6 else []
             if not a:
+                self.feat("arg.missing_none_default_typed")
+            self._numeric_prefix = False
+        elif c == "optfb":
+            a = [self.float_arg(D, P), self.bool_arg(D, P)][:r.choice([0, 1, 2, 2])]
+            if len(a) < 2:
                 self.feat("arg.missing_none_default_typed")
             self._numeric_prefix = False
         elif c == "unann":
